@@ -390,6 +390,15 @@ func ruleC05Alias(w *World, r *Report) {
 
 // isFreshSlice: the value is built by make / append(nil-or-empty, …) / a copy into a new slice.
 func isFreshSlice(v ssa.Value) bool {
+	return isFreshSlice0(v, map[ssa.Value]bool{})
+}
+
+func isFreshSlice0(v ssa.Value, seen map[ssa.Value]bool) bool {
+	if seen[v] {
+		return true // a loop-carried value is as fresh as its other inputs
+	}
+	seen[v] = true
+	isFreshSlice := func(x ssa.Value) bool { return isFreshSlice0(x, seen) }
 	switch x := v.(type) {
 	case *ssa.MakeSlice:
 		return true
